@@ -357,9 +357,59 @@ class SenderAck(Job):
         return None
 
 
+class DirectoryMembers(Job):
+    """the receiver's real _write_directory/_extract_file: every member of the received archive (files, nested files, explicit -
+    i.e. empty - directory entries) is extracted beneath the destination, in archive order"""
+    name = "directory_members_extracted"
+    functions = ["cli.cmd_receive.Receiver._write_directory/_extract_file"]
+    shadows = ["cmd_receive.zipfile (listing with the chosen member names), os (recorded)"]
+    must_reach = ("nt:extracted",)
+    TREES = [["a.txt"], ["a.txt", "sub/b.txt"], ["empty/"], ["a.txt", "empty/", "deep/er/", "deep/x"], ["odd name \u00e9 [x]/", "z"], []]
+    bounds = dict(trees=TREES)
+
+    def run(self, members):
+        from harness import c05
+        fs = c05.FS()
+
+        class Info(c05.FakeZipInfo):
+            def is_dir(s):
+                return s.filename.endswith("/")
+
+        class Zip(c05.FakeZipFile):
+            def infolist(s):
+                return [Info(n) for n in members]
+        Zip.fs = fs
+        c05.FakeZipFile.fs = fs
+        args = SimpleNamespace(relay_url="ws://x", output_file=None, cwd="/w", accept_file=True, stderr=io.StringIO(), stdout=io.StringIO(),
+                               timing=DebugTiming(), hide_progress=True)
+        r = CR.Receiver(args)
+        r.abs_destname = "/w/tree"
+        f = SimpleNamespace(close=lambda: None)
+        with loader.shadow((CR, "os", c05.make_os(fs)), (CR, "zipfile", SimpleNamespace(ZipFile=Zip)), (CR, "print", lambda *a, **k: None)):
+            r._write_directory(f)
+        return ["".join(p.c) if hasattr(p, "c") else p for op, p in fs.mut if op == "extract"]
+
+    def expected(self, members):
+        return ["/w/tree/" + m.rstrip("/") for m in members]
+
+    def scenario(self):
+        i = eng().choose(len(self.TREES), "tree")
+        eng().inputs["tree"] = i
+        got = self.run(self.TREES[i])
+        check(got == self.expected(self.TREES[i]), "not every archive member was extracted beneath the destination (in order)")
+        eng().note("nt:extracted")
+
+    def replay(self, inp, label):
+        t = self.TREES[inp["tree"]]
+        got = self.run(t)
+        if got != self.expected(t):
+            return "archive members %r: extracted %r" % (t, got)
+        return None
+
+
 def jobs(tier):
     thorough = tier == "thorough"
-    return [ReceiveFile(n) for n in ((1, 2, 3, 4) if thorough else (1, 2, 3))] + [SenderAck()]
+    return [ReceiveFile(n) for n in ((1, 2, 3, 4) if thorough else (1, 2, 3))] + [SenderAck(), DirectoryMembers()]
 
 
 ASSUMPTIONS = [
